@@ -160,7 +160,15 @@ class CG(G18.G):
         self.defined = set(G18.SYM)
 
 
-FOCI = [None, 'ref', 'ref', 'int', 'regex', 'repl', 'range', 'path', 'glob', 'int', 'regex']
+class ChoiceCG(G18.ChoiceG):
+    """the same, driven by an explicit choice function (deterministic enumeration)"""
+
+    def __init__(self, next_choice, focus=None):
+        G18.ChoiceG.__init__(self, next_choice, focus)
+        self.defined = set(G18.SYM)
+
+
+FOCI = [None, None, 'ref', 'ref', 'int', 'int', 'regex', 'regex', 'repl', 'range', 'path', 'glob', 'heredoc', 'enum']
 
 # (method of the C18 grammar, weight, phases (None: every instruction phase))
 _INSTRUCTION_TABLE = [
@@ -191,12 +199,50 @@ def instruction_carrier(g, ph):
     focus, the instruction is re-drawn (a bounded number of times) until it holds a token of the focused kind"""
     table = [m for m, w, phs in _INSTRUCTION_TABLE if phs is None or ph in phs for _ in range(w)]
     elems = None
-    for _ in range(8 if g.focus else 1):
+    for _ in range(25 if g.focus else 1):
         getattr(g, g.pick(table))(ph)
         elems = _take(g)
         if not g.focus or _has_focus(elems, g.focus):
             break
     return elems
+
+
+def use_of_definition(elem, ph):
+    """an instruction of phase `ph` that uses the symbol defined by `elem` (so that its value is validated), or None"""
+    toks = elem['toks']
+    if elem['name'] != 'def' or len(toks) < 4 or toks[2][1] != 'name':
+        return None
+    typ, name = toks[1][0], toks[2][0]
+    kw = lambda *ws: [[w, 'kw'] for w in ws]
+    head = kw('file') + [['u1.txt', 'path']] + kw('=') + [['"a"', 'str']] + kw('-transformed-by')
+    if typ == 'integer-matcher':
+        t = head + kw('filter', 'line-num') + [[name, 'ref:' + typ]]
+    elif typ == 'line-matcher':
+        t = head + kw('filter') + [[name, 'ref:' + typ]]
+    elif typ == 'text-matcher':
+        t = head + kw('filter', 'contents') + [[name, 'ref:' + typ]]
+    elif typ == 'text-transformer':
+        t = head + [[name, 'ref:' + typ]]
+    elif typ in ('text-source', 'string'):
+        t = kw('file') + [['u1.txt', 'path']] + kw('=') + [['@[%s]@' % name, 'sref:' + typ]]
+    elif typ == 'files-source':
+        t = kw('dir') + [['u1', 'path']] + kw('=') + [[name, 'ref:' + typ]]
+    elif typ == 'program':
+        t = kw('run', '@') + [[name, 'ref:' + typ]]
+    elif typ == 'list':
+        t = kw('%') + [['echo', 'str'], ['@[%s]@' % name, 'sref:list']]
+    elif typ == 'file-matcher' and ph == 'assert':
+        t = kw('exists', '-rel-act') + [['f.txt', 'path']] + kw(':') + [[name, 'ref:' + typ]]
+        t[1][1] = 'rel'
+    elif typ == 'files-matcher' and ph == 'assert':
+        t = kw('dir-contents', '-rel-act') + [['d', 'path']] + kw(':') + [[name, 'ref:' + typ]]
+        t[1][1] = 'rel'
+    elif typ == 'files-condition' and ph == 'assert':
+        t = kw('dir-contents', '-rel-act') + [['d', 'path']] + kw(':', 'matches') + [[name, 'ref:' + typ]]
+        t[1][1] = 'rel'
+    else:
+        return None
+    return {'name': t[0][0], 'toks': t, 'use_of': name}
 
 
 def act_carrier(g, actor):
@@ -592,7 +638,9 @@ def ops_for(elems, ei, ph, at_eof, ctx):
                     for nm in ('BAD_RE', 'BAD_RE_2'):
                         out.append({'op': 'bad-regex-via-symbol', 'cls': CLS_VALUE, 'expect': EITHER, 'tok': i,
                                     'edit': 'replace', 'text': '@[%s]@' % nm, 'needs': [nm]})
-            elif kind == 'repl':
+            elif kind == 'repl' and i and toks[i - 1][1] == 'regex' and '@[' not in toks[i - 1][0]:
+                # the replacement is judged together with its REGEX; a REGEX whose value comes from a symbol (a path
+                # of the test case ...) may be put together only when the instruction runs
                 for w in BAD_REPLS:
                     out.append({'op': 'bad-replacement', 'cls': CLS_VALUE, 'expect': EITHER, 'tok': i,
                                 'edit': 'replace', 'text': w})
@@ -626,7 +674,7 @@ def ops_for(elems, ei, ph, at_eof, ctx):
     if not _last_line_is_open(toks) and not (is_def and toks[1][0] == 'list'):
         for w in ('superfluous', '"superfluous argument"', 'x y'):
             out.append({'op': 'superfluous-argument', 'cls': CLS_SYNTAX, 'expect': SYN, 'edit': 'append-arg', 'text': w})
-    if at_eof:
+    if at_eof and ei == len(elems) - 1:
         for i, (text, kind) in enumerate(toks[:-1]):
             if kind == 'kw' and text in DEMANDING and not any(t[1] in ('heredoc',) for t in toks[:i]):
                 # cut behind a word that demands an argument; only sound at the very end of the file
@@ -662,6 +710,28 @@ def _path_ops(span, elem, ph, used):
                     out.append({'op': 'relativity-via-symbol', 'cls': CLS_SYMBOL, 'expect': VAL, 'edit': 'span',
                                 'start': s, 'end': e, 'toks': new, 'needs': [sym], 'rel': r, 'depth': depth,
                                 'form': form})
+    if role in (ROLE_DEST, ROLE_EXIST, ROLE_READ, ROLE_DEF) and span['what'] != 'act-file':
+        # a FILE-NAME is built from strings: a path symbol may only start it (followed by `/`), a list never fits,
+        # nor does a string whose value is built from a list / path.  The whole PATH is rewritten so that every
+        # form of it (with / without relativity option, quoted, reference first / inside / last) is met
+        plain = _unq(fname) if not fname.startswith('@[') else 'name-x'
+        ok_rel = {ROLE_DEST: '-rel-act', ROLE_EXIST: '-rel-home', ROLE_READ: '-rel-act', ROLE_DEF: '-rel-tmp'}[role]
+        for sym, needs, why in (('P', [], 'path'), ('L', [], 'list'), ('PD', [], 'path'), ('C1_P', ['C1_P'], 'path'),
+                                ('C2_L', ['C2_L'], 'list'), ('S_OF_L', ['S_OF_L'], 'string-of-list'),
+                                ('S_OF_P', ['S_OF_P'], 'string-of-path'),
+                                ('S_OF_S_OF_L', ['S_OF_S_OF_L'], 'string-of-list')):
+            r = '@[%s]@' % sym
+            forms = [('suffix', plain + r), ('infix', 'pre-' + r + '-post'), ('component', plain + '/' + r),
+                     ('soft-quoted', '"%s %s"' % (plain, r)), ('after-string-symbol', '@[S]@' + r),
+                     ('twice', plain + r + r)]
+            if why == 'list':
+                forms += [('whole', r), ('leading', r + '/' + plain)]
+            for fname_form, text in forms:
+                for with_rel in (False, True):
+                    new = ([[ok_rel, 'rel']] if with_rel else []) + [[text, 'path']]
+                    out.append({'op': 'wrong-type-in-path', 'cls': CLS_SYMBOL, 'expect': VAL, 'edit': 'span',
+                                'start': s, 'end': e, 'toks': new, 'needs': needs, 'form': fname_form,
+                                'with_rel': with_rel, 'wtype': why})
     if role == ROLE_EXIST and used:
         what = span['what']
         if what in ('copy-src', 'contents-of', 'existing-file', 'existing-path', 'existing-dir', 'program-file',
